@@ -137,7 +137,7 @@ def _selftest():
         f.write('Eval vm_compute in (mism_ 0%nat cases_).\n')
         f.write('Eval vm_compute in (mism_ 0%nat doms_).\n')
     t0 = time.time()
-    p = subprocess.run(['timeout', '900', 'coqc', '-R', env.COQ, 'Depccg', '-Q', work, 'WC07deriv', fn], stdout=subprocess.PIPE, stderr=subprocess.PIPE, text=True)
+    p = subprocess.run(['timeout', '900', env.COQC, '-R', env.COQ, 'Depccg', '-Q', work, 'WC07deriv', fn], stdout=subprocess.PIPE, stderr=subprocess.PIPE, text=True)
     dt = time.time() - t0
     found = re.findall(r'=\s*(\[[^\]]*\]|nil)\s*:\s*list nat', p.stdout.replace('\n', ' '))
     if p.returncode != 0 or len(found) != 2:
